@@ -137,6 +137,10 @@ DISCR_DTYPES = ['float64', 'float32', 'complex128', 'complex64', 'int64']
 KW_DTYPES = ['float64', 'float32', 'complex128', 'complex64', 'int64',
              'int32', 'int16', 'bool', 'float16']
 ORDERS = ('C', 'F', 'strided', 'rev')
+WIDER = {'float16': 'float32', 'float32': 'float64', 'float64': 'complex128',
+         'complex64': 'complex128', 'complex128': 'complex64',
+         'int16': 'int64', 'int32': 'int64', 'int64': 'float64',
+         'bool': 'int64'}
 
 
 def _probe(name, dt, **kw):
@@ -541,6 +545,18 @@ def _case(draw):
             # the product-space wrapper takes out1=/out2= and is broken
             # altogether (known finding C17-K3)
             outs = [None, None]
+        real = [o for o in outs if o and o['kind'] not in ('x', 'other')]
+        if real and 'dtype' not in kw and KW_OK.get((name, dtype)) and \
+                _one_in(draw, 3):
+            kw['dtype'] = draw(st.sampled_from(KW_OK[name, dtype]))
+        if 'dtype' in kw:
+            # the only route on which `writable_array` works on a converted
+            # copy and has to write it back: out of another dtype than the
+            # requested one (a wider one, so that NumPy admits the cast)
+            for o in real:
+                if draw(st.booleans()) and kw['dtype'] in WIDER:
+                    o['dtype'] = WIDER[kw['dtype']]
+                    o['order'] = 'C'
         desc['out'] = outs
         if method == '__call__' and uf.nout == 2 and any(outs):
             desc['out_positional'] = draw(st.booleans()) and all(outs)
@@ -803,7 +819,9 @@ def _stack(sd, ed):
     """Array underlying the described element (power spaces stacked)."""
     if sd['kind'] == 'pspace':
         parts = build.space_parts(sd)
-        return np.stack([_stack(parts[i], ed[i]) for i in range(len(parts))])
+        # x.asarray() of a power-space element is a fresh C-ordered array
+        return np.ascontiguousarray(
+            np.stack([_stack(parts[i], ed[i]) for i in range(len(parts))]))
     return build.build_array(ed, dtype=sd['dtype'],
                              shape=build.space_shape(sd))
 
